@@ -5,6 +5,11 @@ import (
 	"os"
 	"time"
 
+	"github.com/bbva/qed/balloon"
+	"github.com/bbva/qed/consensus"
+	"github.com/bbva/qed/crypto/hashing"
+	"github.com/bbva/qed/protocol"
+	"github.com/bbva/qed/storage/rocks"
 	"qedverif/cq"
 )
 
@@ -117,7 +122,37 @@ func transferCmd(out *cq.Out, seed uint64, tier string) {
 		} else {
 			out.Violate("C09:no-convergence", "the restored follower did not apply later insertions", desc)
 		}
-		// make it the leader: its own snapshots must continue the sequence
+		// C16 on a replica that was brought up by state transfer: a backup taken there must hold the whole log
+		if rn := c.nodes[f]; rn != nil {
+			if err := rn.CreateBackup(); err == nil {
+				infos := rn.ListBackups()
+				rdir, _ := os.MkdirTemp(out.Dir, "trbk")
+				if len(infos) > 0 {
+					want := len(c.acked)
+					if err := rn.VStore().RestoreFromBackup(uint32(infos[len(infos)-1].ID), rdir, rdir); err == nil {
+						if rs, err := rocks.NewRocksDBStore(rdir, 0); err == nil {
+							ch := make(chan *protocol.Snapshot, 16)
+							drain(ch)
+							if bn, err := consensus.VNewFSM(rs, ch); err == nil {
+								cur := uint64(want - 1)
+								d := hashing.NewSha256Hasher().Do(c.events[0])
+								var p *balloon.MembershipProof
+								var perr error
+								if pp, pm := cq.Catch(func() { p, perr = bn.VBalloon().QueryDigestMembershipConsistency(d, cur) }); pp {
+									perr = fmt.Errorf("panic: %s", pm)
+								}
+								if int(bn.VBalloonVersion()) != want || perr != nil || !p.Exists ||
+									!p.DigestVerify(d, &balloon.Snapshot{HistoryDigest: c.acked[cur].HistoryDigest, HyperDigest: c.acked[cur].HyperDigest}) {
+									out.Violate("C16:backup-on-transferred-replica", fmt.Sprintf("a backup taken on the replica that caught up by state transfer records version %s but restores to %d events (log has %d); event 0 provable=%v", infos[len(infos)-1].Metadata, bn.VBalloonVersion(), want, perr == nil && p != nil && p.Exists), desc)
+								}
+								bn.VCloseFSM()
+							}
+						}
+					}
+				}
+				os.RemoveAll(rdir)
+			}
+		}
 		time.Sleep(100 * time.Millisecond)
 		out.Count("transfer_scenarios", 1)
 		out.Case(fmt.Sprintf("transfer:%d", sc), true)
